@@ -23,6 +23,7 @@ import vlib
 from vlib import Hit
 
 LEVEL = 'proof'
+MAX_REPORTED = 10      # distinct failing inputs written as replays per run (the rest is counted in the evidence)
 
 OUT = {'same': 'OSame', 'fold': 'OFold', 'unfold': 'OUnfold', 'full': 'OFull', 'full-unique': 'OFullUnique'}
 OUTS = list(OUT)
@@ -443,8 +444,9 @@ def run(ctx):
     rng = np.random.default_rng(ctx.seed)
     warnings.simplefilter('ignore')
     try:
-        from translate import vmi_inv
+        from translate import vmi_inv, vmi_index
         vmi_inv.generate()
+        vmi_index.generate()
         trans_err = None
     except Exception as e:     # noqa
         trans_err = '%s: %s' % (type(e).__name__, e)
@@ -479,6 +481,9 @@ def run(ctx):
         if (h.key, h.clause) in seen:
             continue
         seen.add((h.key, h.clause))
+        if new >= MAX_REPORTED:
+            ctx.cov['hits_not_reported'] = ctx.cov.get('hits_not_reported', 0) + 1
+            continue
         if ctx.report_hit(h):
             new += 1
     if trans_err and new == 0:
